@@ -1,6 +1,7 @@
 package main
 
 import (
+	"strings"
 	"fmt"
 	"math/big"
 
@@ -193,6 +194,31 @@ func genC03(r *rng, tier string, emit func(string)) {
 			x = limbPattern(r)
 		}
 		emit(fmt.Sprintf("econ %s %s", bhex(x), bhex(y)))
+	}
+	// call sequences: P, then -P (same x), then P again, other points in between, same and different scalars
+	for i := 0; i < n/4; i++ {
+		p, q := P(), P()
+		ny := new(big.Int).Sub(sm2P, p[1])
+		k1, k2 := hx(r.biasedScalar()), hx(r.biasedScalar())
+		seq := []string{
+			fmt.Sprintf("%s,%s,%s", bhex(p[0]), bhex(p[1]), k1),
+			fmt.Sprintf("%s,%s,%s", bhex(p[0]), bhex(ny), r.pick2([]string{k1, k2})),
+			fmt.Sprintf("%s,%s,%s", bhex(p[0]), bhex(p[1]), k2),
+		}
+		if i%2 == 1 {
+			seq = append(seq, fmt.Sprintf("%s,%s,%s", bhex(q[0]), bhex(q[1]), k1), fmt.Sprintf("%s,%s,%s", bhex(p[0]), bhex(ny), k1))
+		}
+		emit("ecsmulseq " + strings.Join(seq, " "))
+	}
+	// membership of every pair of small / large coordinates, (0,0) - the affine encoding of infinity - included
+	{
+		pm := func(d int64) *big.Int { return new(big.Int).Sub(sm2P, big.NewInt(d)) }
+		vals := []*big.Int{big.NewInt(0), big.NewInt(1), big.NewInt(2), pm(1), pm(2)}
+		for _, x := range vals {
+			for _, y := range vals {
+				emit(fmt.Sprintf("econ %s %s", bhex(x), bhex(y)))
+			}
+		}
 	}
 	// key generation from the supplied random source
 	nm2 := new(big.Int).Sub(sm2N, big.NewInt(2))
